@@ -303,8 +303,12 @@ Definition cvar_ok (cv : cvar) : bool :=
           | _ => forallb (fun w => negb w && negb (child_writes cv)) (cv_mid cv)
           end)).
 
+Fixpoint nodupb (l : list nat) : bool :=
+  match l with [] => true | x :: r => negb (mem_nat x r) && nodupb r end.
+
 Definition footprint_race_free (fp : footprint) : bool :=
-  fp_add_before_go fp && fp_done_deferred fp && fp_wait_after fp && forallb cvar_ok (fp_vars fp).
+  fp_add_before_go fp && fp_done_deferred fp && fp_wait_after fp
+  && nodupb (map cv_id (fp_vars fp)) && forallb cvar_ok (fp_vars fp).
 
 (* The phase program generated from a footprint: `passes` rounds (the outer loop over
    processors; 1 for Close) of n goroutines each.  Thread id of goroutine i (0-based) of round p
